@@ -882,3 +882,13 @@ RULES += [
     ("C02.R5", r5_derived),
     ("C02.R4", r4_empty_location),
 ]
+
+def r6i_identity(ctx):
+    """locations on equal parents are comparable whether or not the two Parent objects are the same object (the constructor cache
+    holds 1000 entries; an equal parent built later, or spelled with its keyword arguments in another order, is another object):
+    no identity comparison between Parent / Location / Sequence values outside an equality fast path (shared with C10.R6)"""
+    from .c10 import r6_identity
+    r6_identity(ctx, rule="C02.R6i")
+
+
+RULES.append(("C02.R6i", r6i_identity))
